@@ -3,6 +3,50 @@ import FV.Model.Thrift
 
 namespace FV.Thrift
 
+-- Boolean equality of values is equality.
+mutual
+theorem Val.beq_iff : ∀ (v w : Val), Val.beq v w = true ↔ v = w
+  | .bool a, w => by cases w <;> simp [Val.beq]
+  | .int a, w => by cases w <;> simp [Val.beq]
+  | .dbl a, w => by cases w <;> simp [Val.beq]
+  | .bytes a, w => by cases w <;> simp [Val.beq]
+  | .list a, w => by
+    cases w <;> simp only [Val.beq, Val.list.injEq, reduceCtorEq, Bool.false_eq_true]
+    exact Val.beqList_iff a _
+  | .map a, w => by
+    cases w <;> simp only [Val.beq, Val.map.injEq, reduceCtorEq, Bool.false_eq_true]
+    exact Val.beqPairs_iff a _
+  | .struct a, w => by
+    cases w <;> simp only [Val.beq, Val.struct.injEq, reduceCtorEq, Bool.false_eq_true]
+    exact Val.beqFields_iff a _
+theorem Val.beqList_iff : ∀ (a b : List Val), Val.beqList a b = true ↔ a = b
+  | [], b => by cases b <;> simp [Val.beqList]
+  | x :: xs, b => by
+    cases b with
+    | nil => simp [Val.beqList]
+    | cons y ys => simp only [Val.beqList, Bool.and_eq_true, List.cons.injEq, Val.beq_iff x y, Val.beqList_iff xs ys]
+theorem Val.beqPairs_iff : ∀ (a b : List (Val × Val)), Val.beqPairs a b = true ↔ a = b
+  | [], b => by cases b <;> simp [Val.beqPairs]
+  | (k1, v1) :: xs, b => by
+    cases b with
+    | nil => simp [Val.beqPairs]
+    | cons y ys =>
+      obtain ⟨k2, v2⟩ := y
+      simp only [Val.beqPairs, Bool.and_eq_true, List.cons.injEq, Prod.mk.injEq, Val.beq_iff k1 k2, Val.beq_iff v1 v2, Val.beqPairs_iff xs ys, and_assoc]
+theorem Val.beqFields_iff : ∀ (a b : List (Int × Val)), Val.beqFields a b = true ↔ a = b
+  | [], b => by cases b <;> simp [Val.beqFields]
+  | (i1, v1) :: xs, b => by
+    cases b with
+    | nil => simp [Val.beqFields]
+    | cons y ys =>
+      obtain ⟨i2, v2⟩ := y
+      simp only [Val.beqFields, Bool.and_eq_true, List.cons.injEq, Prod.mk.injEq, Val.beq_iff v1 v2, Val.beqFields_iff xs ys, and_assoc, beq_iff_eq]
+end
+
+instance : DecidableEq Val := fun a b =>
+  if h : Val.beq a b = true then isTrue ((Val.beq_iff a b).mp h) else isFalse (fun e => h ((Val.beq_iff a b).mpr e))
+
+
 /-- Pointwise relation between two lists. -/
 inductive All2 {α β : Type} (R : α → β → Prop) : List α → List β → Prop where
   | nil : All2 R [] []
@@ -52,7 +96,11 @@ def WT (d : Defs) : Nat → Ty → Val → Prop
         fs = normFields sd fs ∧
         (sd.kind = .union → (sd.fields.filter fun f => (lookupVal fs f.id).isSome).length = 1) ∧
         (∀ f ∈ sd.fields, f.req ≠ .optional → sd.kind ≠ .union → (lookupVal fs f.id).isSome) ∧
-        (∀ f ∈ sd.fields, ∀ x, lookupVal fs f.id = some x → WT d n f.ty x)
+        (∀ f ∈ sd.fields, ∀ x, lookupVal fs f.id = some x → WT d n f.ty x) ∧
+        -- a listed field is SET: a non-pointer optional field differs from its default
+        (∀ f ∈ sd.fields, ∀ x, lookupVal fs f.id = some x → isSetVal sd f x = true) ∧
+        -- the declared defaults are themselves well-typed values of the field types
+        (∀ f ∈ sd.fields, ∀ dv, f.dflt = some dv → WT d n f.ty dv)
     | _, _ => False
 
 theorem concatRes_pair (a b : Res (List Event)) (c : List Event) (h : concatRes [a, b] = .ok c) :
@@ -147,26 +195,28 @@ theorem entries_ids (fs : List (Int × Val)) (fl : List Field) :
 /-- The emitted field loop reads back the chunks the emitted field writers produced. -/
 theorem decFields_enc (d : Defs) (enc : Ty → Val → Res (List Event))
     (dec : Ty → List Event → Res (Val × List Event)) (skp : Nat → List Event → Res (List Event))
-    (sd : StructDef) (fs : List (Int × Val)) (hnd : (sd.fields.map (·.id)).Nodup)
+    (sd sdr : StructDef) (fs : List (Int × Val)) (hnd : (sdr.fields.map (·.id)).Nodup)
     (ih : ∀ f ∈ sd.fields, ∀ x c rest, lookupVal fs f.id = some x → enc f.ty x = .ok c →
             dec f.ty (c ++ rest) = .ok (x, rest))
-    (habs : ∀ f ∈ sd.fields, lookupVal fs f.id = none → f.req = .optional ∨ sd.kind = .union) :
+    (habs : ∀ f ∈ sd.fields, lookupVal fs f.id = none → f.req = .optional ∨ sd.kind = .union)
+    (hset : ∀ f ∈ sd.fields, ∀ x, lookupVal fs f.id = some x → isSetVal sd f x = true) :
     ∀ (fl : List Field) (cs : List (List Event)) (rest : List Event) (acc : List (Int × Val)) (fuel : Nat),
       All2 (fun f c => fieldEvents d enc sd fs f = .ok c) fl cs →
-      (∀ f ∈ fl, f ∈ sd.fields) → (fl.map (·.id)).Nodup →
+      (∀ f ∈ fl, f ∈ sd.fields) → (∀ f ∈ fl, f ∈ sdr.fields) → (fl.map (·.id)).Nodup →
       (∀ i ∈ acc.map (·.1), i ∉ fl.map (·.id)) →
       (entries fs fl).length + 1 ≤ fuel →
-      decFields dec skp sd fuel (cs.flatten ++ .fs :: rest) acc = .ok (acc ++ entries fs fl, rest) := by
+      decFields dec skp sdr fuel (cs.flatten ++ .fs :: rest) acc = .ok (acc ++ entries fs fl, rest) := by
   intro fl cs rest acc fuel hf
   induction hf generalizing acc fuel with
   | nil =>
-    intro _ _ _ hfuel
+    intro _ _ _ _ hfuel
     cases fuel with
     | zero => simp [entries] at hfuel
     | succ k => simp [decFields, entries]
   | @cons f c fl' cs' hx _ ih2 =>
-    intro hsub hnd2 hdis hfuel
+    intro hsub hsubr hnd2 hdis hfuel
     have hfm : f ∈ sd.fields := hsub f (by simp)
+    have hfr : f ∈ sdr.fields := hsubr f (by simp)
     simp only [List.map_cons, List.nodup_cons] at hnd2
     cases hl : lookupVal fs f.id with
     | none =>
@@ -179,12 +229,13 @@ theorem decFields_enc (d : Defs) (enc : Ty → Val → Res (List Event))
       have he : entries fs (f :: fl') = entries fs fl' := by simp [entries, hl]
       rw [he] at hfuel ⊢
       simp only [List.flatten_cons, List.nil_append]
-      exact ih2 acc fuel (fun g hg => hsub g (by simp [hg])) hnd2.2
+      exact ih2 acc fuel (fun g hg => hsub g (by simp [hg])) (fun g hg => hsubr g (by simp [hg])) hnd2.2
         (fun i hi hmem => hdis i hi (by simp [hmem])) hfuel
     | some x =>
       have he : entries fs (f :: fl') = (f.id, x) :: entries fs fl' := by simp [entries, hl]
       rw [he] at hfuel ⊢
       simp only [fieldEvents, hl] at hx
+      rw [if_pos (hset f hfm x hl)] at hx
       split at hx
       · rename_i body hbody
         cases hx
@@ -192,13 +243,13 @@ theorem decFields_enc (d : Defs) (enc : Ty → Val → Res (List Event))
         | zero => simp at hfuel
         | succ k =>
           simp only [List.flatten_cons, List.cons_append, List.append_assoc, List.nil_append, List.singleton_append]
-          rw [decFields, find_field sd.fields hnd f hfm]
+          rw [decFields, find_field sdr.fields hnd f hfr]
           simp only
           rw [ih f hfm x body _ hl hbody]
           simp only
           have hfresh : f.id ∉ acc.map (·.1) := fun hm => hdis f.id hm (by simp)
           rw [setField_fresh acc f.id x hfresh]
-          rw [ih2 (acc ++ [(f.id, x)]) k (fun g hg => hsub g (by simp [hg])) hnd2.2 ?_ (by simp at hfuel; omega)]
+          rw [ih2 (acc ++ [(f.id, x)]) k (fun g hg => hsub g (by simp [hg])) (fun g hg => hsubr g (by simp [hg])) hnd2.2 ?_ (by simp at hfuel; omega)]
           · simp
           · intro i hi hmem
             simp only [List.map_append, List.map_cons, List.map_nil, List.mem_append, List.mem_singleton] at hi
@@ -251,16 +302,117 @@ theorem lookup_entries (fs : List (Int × Val)) :
           simp [lookupVal, hne]
         rw [this]; exact ih hnd.2 f hm
 
-theorem normFields_eq_entries (sd : StructDef) (fs : List (Int × Val)) : normFields sd fs = entries fs sd.fields := rfl
+theorem filterMap_congr' {α β : Type} (f g : α → Option β) :
+    ∀ (l : List α), (∀ x ∈ l, f x = g x) → l.filterMap f = l.filterMap g := by
+  intro l
+  induction l with
+  | nil => intro _; rfl
+  | cons a t ih =>
+    intro h
+    rw [List.filterMap_cons, List.filterMap_cons, h a (by simp), ih (fun x hx => h x (by simp [hx]))]
+
+/-- On a value whose listed fields are set and whose unlisted fields are optional, the reader's
+normalisation is the identity on what is listed. -/
+theorem normFields_eq_entries (sd : StructDef) (fs : List (Int × Val))
+    (habs : ∀ f ∈ sd.fields, lookupVal fs f.id = none → f.req = .optional ∨ sd.kind = .union)
+    (hset : ∀ f ∈ sd.fields, ∀ x, lookupVal fs f.id = some x → isSetVal sd f x = true) :
+    normFields sd fs = entries fs sd.fields := by
+  unfold normFields entries
+  apply filterMap_congr'
+  intro f hf
+  unfold readState
+  cases hl : lookupVal fs f.id with
+  | none => simp only [if_pos (habs f hf hl), Option.map_none]
+  | some x => simp only [if_pos (hset f hf x hl), Option.map_some]
+
+/-- Under the same conditions `IsSet<F>()` is "listed". -/
+theorem isSetIn_eq_isSome (sd : StructDef) (fs : List (Int × Val))
+    (hset : ∀ f ∈ sd.fields, ∀ x, lookupVal fs f.id = some x → isSetVal sd f x = true) :
+    (sd.fields.filter (isSetIn sd fs)) = (sd.fields.filter fun f => (lookupVal fs f.id).isSome) := by
+  apply List.filter_congr
+  intro f hf
+  unfold isSetIn
+  cases hl : lookupVal fs f.id with
+  | none => rfl
+  | some x => simp only [hset f hf x hl, Option.isSome_some]
+
+/-- What the `habs` side conditions need: a well-formed value lists its non-optional fields. -/
+theorem optional_of_absent (sd : StructDef) (fs : List (Int × Val))
+    (hreq : ∀ f ∈ sd.fields, f.req ≠ .optional → sd.kind ≠ .union → (lookupVal fs f.id).isSome) :
+    ∀ f ∈ sd.fields, lookupVal fs f.id = none → f.req = .optional ∨ sd.kind = .union := by
+  intro f hf hl
+  cases hr : f.req with
+  | optional => exact Or.inl rfl
+  | required | default =>
+    right
+    cases hk : sd.kind with
+    | union => rfl
+    | struct | exception =>
+      have := hreq f hf (by rw [hr]; intro h; cases h) (by rw [hk]; intro h; cases h)
+      rw [hl] at this; cases this
 
 
-theorem entries_length_le (d : Defs) (enc : Ty → Val → Res (List Event)) (sd : StructDef) (fs : List (Int × Val)) :
+/-- Looking a declared field up in a per-field `filterMap` (ids distinct) finds that field's entry. -/
+theorem lookup_filterMap_fields (h : Field → Option Val) :
+    ∀ (fl : List Field), (fl.map (·.id)).Nodup → ∀ f ∈ fl,
+      lookupVal (fl.filterMap fun g => (h g).map fun v => (g.id, v)) f.id = h f := by
+  intro fl
+  induction fl with
+  | nil => intro _ f hf; cases hf
+  | cons g t ih =>
+    intro hnd f hf
+    simp only [List.map_cons, List.nodup_cons] at hnd
+    have hids : ∀ i ∈ (t.filterMap fun g => (h g).map fun v => (g.id, v)).map (·.1), i ∈ t.map (·.id) := by
+      intro i hi
+      simp only [List.mem_map, List.mem_filterMap] at hi ⊢
+      obtain ⟨⟨i', v⟩, ⟨f', hf', hv⟩, rfl⟩ := hi
+      cases hh : h f' with
+      | none => simp [hh] at hv
+      | some x => simp [hh] at hv; exact ⟨f', hf', hv.1⟩
+    rcases List.mem_cons.mp hf with rfl | hm
+    · cases hl : h f with
+      | some x => simp [List.filterMap_cons, hl, lookupVal]
+      | none =>
+        simp only [List.filterMap_cons, hl, Option.map_none]
+        cases hl2 : lookupVal (t.filterMap fun g => (h g).map fun v => (g.id, v)) f.id with
+        | none => rfl
+        | some y =>
+          exfalso
+          simp only [lookupVal, Option.map_eq_some_iff] at hl2
+          obtain ⟨⟨i, w⟩, hfind, _⟩ := hl2
+          have hmem := List.mem_of_find?_eq_some hfind
+          have hi := List.find?_some hfind
+          simp only [decide_eq_true_eq] at hi
+          have := hids i (List.mem_map_of_mem (f := (·.1)) hmem)
+          exact hnd.1 (by rw [← hi]; exact this)
+    · have hne : g.id ≠ f.id := by
+        intro e
+        exact hnd.1 (by rw [e]; exact List.mem_map_of_mem (f := (·.id)) hm)
+      cases hl : h g with
+      | none =>
+        simp only [List.filterMap_cons, hl, Option.map_none]
+        exact ih hnd.2 f hm
+      | some x =>
+        simp only [List.filterMap_cons, hl, Option.map_some]
+        have : lookupVal ((g.id, x) :: t.filterMap fun g => (h g).map fun v => (g.id, v)) f.id
+            = lookupVal (t.filterMap fun g => (h g).map fun v => (g.id, v)) f.id := by
+          simp [lookupVal, hne]
+        rw [this]; exact ih hnd.2 f hm
+
+theorem lookup_normFields (sd : StructDef) (acc : List (Int × Val)) (hnd : (sd.fields.map (·.id)).Nodup)
+    (f : Field) (hf : f ∈ sd.fields) : lookupVal (normFields sd acc) f.id = readState sd acc f :=
+  lookup_filterMap_fields (readState sd acc) sd.fields hnd f hf
+
+theorem entries_length_le (d : Defs) (enc : Ty → Val → Res (List Event)) (sd : StructDef) (fs : List (Int × Val))
+    (hset : ∀ f ∈ sd.fields, ∀ x, lookupVal fs f.id = some x → isSetVal sd f x = true) :
     ∀ (fl : List Field) (cs : List (List Event)), All2 (fun f c => fieldEvents d enc sd fs f = .ok c) fl cs →
-      (entries fs fl).length ≤ cs.flatten.length := by
+      (∀ f ∈ fl, f ∈ sd.fields) → (entries fs fl).length ≤ cs.flatten.length := by
   intro fl cs h
   induction h with
-  | nil => simp [entries]
+  | nil => intro _; simp [entries]
   | @cons f c fl' cs' hx _ ih =>
+    intro hsub
+    have ih := ih (fun g hg => hsub g (by simp [hg]))
     cases hl : lookupVal fs f.id with
     | none =>
       have : entries fs (f :: fl') = entries fs fl' := by simp [entries, hl]
@@ -269,6 +421,7 @@ theorem entries_length_le (d : Defs) (enc : Ty → Val → Res (List Event)) (sd
       have : entries fs (f :: fl') = (f.id, x) :: entries fs fl' := by simp [entries, hl]
       rw [this]
       simp only [fieldEvents, hl] at hx
+      rw [if_pos (hset f (hsub f (by simp)) x hl)] at hx
       split at hx
       · cases hx
         simp only [List.flatten_cons, List.length_append, List.length_cons, List.length_nil]; omega
@@ -334,7 +487,8 @@ theorem roundtrip (d : Defs) : ∀ (n : Nat) (t : Ty) (v : Val) (es rest : List 
       · cases henc
     · -- struct
       rename_i nm fs
-      obtain ⟨sd, hsd, hnd, hcanon, hun, hreq, hfields⟩ := hwt
+      obtain ⟨sd, hsd, hnd, hcanon, hun, hreq, hfields, hset, hdflt⟩ := hwt
+      have habs := optional_of_absent sd fs hreq
       simp only [hsd] at henc
       split at henc
       · cases henc
@@ -344,42 +498,31 @@ theorem roundtrip (d : Defs) : ∀ (n : Nat) (t : Ty) (v : Val) (es rest : List 
           cases henc
           obtain ⟨cs, hall, rfl⟩ := concatRes_map_ok _ _ _ hbody
           simp only [List.cons_append, List.nil_append, List.append_assoc, hsd]
-          have hdf := decFields_enc d (encV d n) (decV d n) (skip (n + 1)) sd fs hnd
-            (fun f hf x c r hl hc => ih f.ty x c r (hfields f hf x hl) hc)
-            (by
-              intro f hf hl
-              cases hr : f.req with
-              | optional => exact Or.inl rfl
-              | required | default =>
-                right
-                cases hk : sd.kind with
-                | union => rfl
-                | struct | exception =>
-                  have := hreq f hf (by rw [hr]; intro h; cases h) (by rw [hk]; intro h; cases h)
-                  rw [hl] at this; cases this)
+          have hdf := decFields_enc d (encV d n) (decV d n) (skip (n + 1)) sd sd fs hnd
+            (fun f hf x c r hl hc => ih f.ty x c r (hfields f hf x hl) hc) habs hset
             sd.fields cs (.se :: rest) [] (cs.flatten ++ .fs :: .se :: rest).length hall
-            (fun f hf => hf) hnd (by intro i hi; cases hi) (by
-              have := entries_length_le d (encV d n) sd fs sd.fields cs hall
+            (fun f hf => hf) (fun f hf => hf) hnd (by intro i hi; cases hi) (by
+              have := entries_length_le d (encV d n) sd fs hset sd.fields cs hall (fun f hf => hf)
               simp only [List.length_append, List.length_cons]; omega)
           rw [hdf]
           simp only [List.nil_append]
+          -- what was read is the value itself
+          have e2 : entries fs sd.fields = fs := by
+            rw [← normFields_eq_entries sd fs habs hset]; exact hcanon.symm
+          rw [e2]
           have hany : (sd.fields.any fun f => decide (f.req = Req.required ∧ sd.kind ≠ Kind.union ∧
-              (lookupVal (entries fs sd.fields) f.id).isNone = true)) = false := by
+              (lookupVal fs f.id).isNone = true)) = false := by
             rw [List.any_eq_false]
             intro f hf
             simp only [decide_eq_true_eq, not_and]
             intro hr hk
-            rw [lookup_entries fs sd.fields hnd f hf]
             have := hreq f hf (by rw [hr]; intro h; cases h) hk
             cases hl : lookupVal fs f.id with
             | none => rw [hl] at this; cases this
             | some x => simp
           rw [hany]
           simp only [Bool.false_eq_true, if_false]
-          rw [filter_present_entries sd fs hnd, if_neg hnotbad]
-          have e1 : normFields sd (entries fs sd.fields) = entries (entries fs sd.fields) sd.fields := rfl
-          have e2 : entries fs sd.fields = fs := by rw [← normFields_eq_entries]; exact hcanon.symm
-          rw [e1, e2, e2]
+          rw [if_neg hnotbad, ← hcanon]
         · cases henc
         · cases henc
     · exact absurd hwt (by simp)
@@ -421,10 +564,10 @@ theorem enc_total (d : Defs) : ∀ (n : Nat) (t : Ty) (v : Val), WT d n t v → 
           exact ⟨ck ++ (cv ++ []), by simp [concatRes, hck, hcv]⟩)
       exact ⟨_, by rw [hes]⟩
     · rename_i nm fs
-      obtain ⟨sd, hsd, hnd, hcanon, hun, hreq, hfields⟩ := hwt
+      obtain ⟨sd, hsd, hnd, hcanon, hun, hreq, hfields, hset, hdflt⟩ := hwt
       simp only [hsd]
-      have hnb : ¬ (sd.kind = .union ∧ (sd.fields.filter fun f => (lookupVal fs f.id).isSome).length ≠ 1) := by
-        intro ⟨hk, hne⟩; exact hne (hun hk)
+      have hnb : ¬ (sd.kind = .union ∧ (sd.fields.filter (isSetIn sd fs)).length ≠ 1) := by
+        intro ⟨hk, hne⟩; rw [isSetIn_eq_isSome sd fs hset] at hne; exact hne (hun hk)
       rw [if_neg hnb]
       obtain ⟨es, hes⟩ := concatRes_map_total (fieldEvents d (encV d n) sd fs) sd.fields (by
         intro f hf
@@ -432,19 +575,9 @@ theorem enc_total (d : Defs) : ∀ (n : Nat) (t : Ty) (v : Val), WT d n t v → 
         cases hl : lookupVal fs f.id with
         | some x =>
           obtain ⟨c, hc⟩ := ih f.ty x (hfields f hf x hl)
-          exact ⟨[.fb f.name (wireOf d f.ty) f.id] ++ c ++ [.fe], by simp only [hc]⟩
+          exact ⟨[.fb f.name (wireOf d f.ty) f.id] ++ c ++ [.fe], by simp only [hc, if_pos (hset f hf x hl)]⟩
         | none =>
-          have : f.req = .optional ∨ sd.kind = .union := by
-            cases hr : f.req with
-            | optional => exact Or.inl rfl
-            | required | default =>
-              right
-              cases hk : sd.kind with
-              | union => rfl
-              | struct | exception =>
-                have := hreq f hf (by rw [hr]; intro h; cases h) (by rw [hk]; intro h; cases h)
-                rw [hl] at this; cases this
-          exact ⟨[], by simp only [if_pos this]⟩)
+          exact ⟨[], by simp only [if_pos (optional_of_absent sd fs hreq f hf hl)]⟩)
       exact ⟨_, by rw [hes]⟩
     · exact absurd hwt (by simp)
 
@@ -500,7 +633,8 @@ theorem skipFields_enc (d : Defs) (enc : Ty → Val → Res (List Event)) (sk : 
     (sd : StructDef) (fs : List (Int × Val))
     (ih : ∀ f ∈ sd.fields, ∀ x c rest, lookupVal fs f.id = some x → enc f.ty x = .ok c →
             sk (wireOf d f.ty) (c ++ rest) = .ok rest)
-    (habs : ∀ f ∈ sd.fields, lookupVal fs f.id = none → f.req = .optional ∨ sd.kind = .union) :
+    (habs : ∀ f ∈ sd.fields, lookupVal fs f.id = none → f.req = .optional ∨ sd.kind = .union)
+    (hset : ∀ f ∈ sd.fields, ∀ x, lookupVal fs f.id = some x → isSetVal sd f x = true) :
     ∀ (fl : List Field) (cs : List (List Event)) (rest : List Event) (fuel : Nat),
       All2 (fun f c => fieldEvents d enc sd fs f = .ok c) fl cs →
       (∀ f ∈ fl, f ∈ sd.fields) → (entries fs fl).length + 1 ≤ fuel →
@@ -530,6 +664,7 @@ theorem skipFields_enc (d : Defs) (enc : Ty → Val → Res (List Event)) (sk : 
       have he : entries fs (f :: fl') = (f.id, x) :: entries fs fl' := by simp [entries, hl]
       rw [he] at hfuel
       simp only [fieldEvents, hl] at hx
+      rw [if_pos (hset f hfm x hl)] at hx
       split at hx
       · rename_i body hbody
         cases hx
@@ -593,7 +728,7 @@ theorem skip_enc (d : Defs) : ∀ (n : Nat) (t : Ty) (v : Val) (es rest : List E
       · cases henc
       · cases henc
     · rename_i nm fs
-      obtain ⟨sd, hsd, hnd, hcanon, hun, hreq, hfields⟩ := hwt
+      obtain ⟨sd, hsd, hnd, hcanon, hun, hreq, hfields, hset, hdflt⟩ := hwt
       simp only [hsd] at henc
       split at henc
       · cases henc
@@ -604,22 +739,161 @@ theorem skip_enc (d : Defs) : ∀ (n : Nat) (t : Ty) (v : Val) (es rest : List E
           simp only [List.cons_append, List.nil_append, List.append_assoc, skip]
           exact skipFields_enc d (encV d n) (skip n) sd fs
             (fun f hf x c r hl hc => ih f.ty x c r (hfields f hf x hl) hc)
-            (by
-              intro f hf hl
-              cases hr : f.req with
-              | optional => exact Or.inl rfl
-              | required | default =>
-                right
-                cases hk : sd.kind with
-                | union => rfl
-                | struct | exception =>
-                  have := hreq f hf (by rw [hr]; intro h; cases h) (by rw [hk]; intro h; cases h)
-                  rw [hl] at this; cases this)
+            (optional_of_absent sd fs hreq) hset
             sd.fields cs rest _ hall (fun f hf => hf) (by
-              have := entries_length_le d (encV d n) sd fs sd.fields cs hall
+              have := entries_length_le d (encV d n) sd fs hset sd.fields cs hall (fun f hf => hf)
               simp only [List.length_append, List.length_cons]; omega)
         · cases henc
         · cases henc
     · exact absurd hwt (by simp)
+
+theorem isSetVal_kind (sd sd' : StructDef) (hk : sd'.kind = sd.kind) (f : Field) (v : Val) :
+    isSetVal sd' f v = isSetVal sd f v := by
+  unfold isSetVal cmpDflt; rw [hk]
+
+/-- SCHEMA EVOLUTION / defaults reproduced. A value written by the emitted `Write` of a struct
+definition `sdw` and read by the emitted `Read` of a definition `sdr` that declares the same fields
+and MORE (none of the extra ones required): the read succeeds, consumes exactly the encoding, the
+common fields keep their values, and every extra field `g` — which the stream omits — is in its
+constructor state: a non-optional `g` holds its default `g.dflt`, an optional one is unset, and in
+both cases the getter `Get<G>()` returns the declared default. -/
+theorem default_reproduced (d : Defs) (n : Nat) (tw tr : Ty) (nw nr : String) (sdw sdr : StructDef)
+    (fs : List (Int × Val)) (es rest : List Event)
+    (hrw : resolve d tw = .struct nw) (hsw : lookupStruct d nw = some sdw)
+    (hrr : resolve d tr = .struct nr) (hsr : lookupStruct d nr = some sdr)
+    (hkind : sdr.kind = sdw.kind) (hnu : sdw.kind ≠ .union)
+    (hsub : ∀ f ∈ sdw.fields, f ∈ sdr.fields)
+    (hndr : (sdr.fields.map (·.id)).Nodup)
+    (hreqr : ∀ f ∈ sdr.fields, f.req = .required → f ∈ sdw.fields)
+    (hwt : WT d (n + 1) tw (.struct fs)) (henc : encV d (n + 1) tw (.struct fs) = .ok es) :
+    decV d (n + 1) tr (es ++ rest) = .ok (.struct (normFields sdr fs), rest) ∧
+    (∀ f ∈ sdw.fields, lookupVal (normFields sdr fs) f.id = lookupVal fs f.id) ∧
+    (∀ g ∈ sdr.fields, g.id ∉ sdw.fields.map (·.id) →
+       lookupVal (normFields sdr fs) g.id = (if g.req = .optional then none else g.dflt) ∧
+       getField (normFields sdr fs) g = g.dflt) := by
+  unfold WT at hwt
+  simp only [hrw] at hwt
+  obtain ⟨sd, hsd, hnd, hcanon, hun, hreq, hfields, hset, hdflt⟩ := hwt
+  rw [hsw] at hsd; cases hsd
+  have habs := optional_of_absent sdw fs hreq
+  have e2 : entries fs sdw.fields = fs := by
+    rw [← normFields_eq_entries sdw fs habs hset]; exact hcanon.symm
+  -- fields the writer does not know are not listed
+  have hnot : ∀ g : Field, g.id ∉ sdw.fields.map (·.id) → lookupVal fs g.id = none := by
+    intro g hg
+    cases hl : lookupVal fs g.id with
+    | none => rfl
+    | some y =>
+      exfalso
+      rw [← e2] at hl
+      simp only [lookupVal, Option.map_eq_some_iff] at hl
+      obtain ⟨⟨i, w⟩, hfind, _⟩ := hl
+      have hmem := List.mem_of_find?_eq_some hfind
+      have hi := List.find?_some hfind
+      simp only [decide_eq_true_eq] at hi
+      have := entries_ids fs sdw.fields i (List.mem_map_of_mem (f := (·.1)) hmem)
+      exact hg (by rw [← hi]; exact this)
+  have hnur : sdr.kind ≠ .union := by rw [hkind]; exact hnu
+  refine ⟨?_, ?_, ?_⟩
+  · unfold encV at henc
+    simp only [hrw, hsw] at henc
+    split at henc
+    · cases henc
+    · split at henc
+      · rename_i body hbody
+        cases henc
+        obtain ⟨cs, hall, rfl⟩ := concatRes_map_ok _ _ _ hbody
+        unfold decV
+        simp only [hrr, List.cons_append, List.nil_append, List.append_assoc, hsr]
+        have hdf := decFields_enc d (encV d n) (decV d n) (skip (n + 1)) sdw sdr fs hndr
+          (fun f hf x c r hl hc => roundtrip d n f.ty x c r (hfields f hf x hl) hc) habs hset
+          sdw.fields cs (.se :: rest) [] (cs.flatten ++ .fs :: .se :: rest).length hall
+          (fun f hf => hf) hsub hnd (by intro i hi; cases hi) (by
+            have := entries_length_le d (encV d n) sdw fs hset sdw.fields cs hall (fun f hf => hf)
+            simp only [List.length_append, List.length_cons]; omega)
+        rw [hdf]
+        simp only [List.nil_append]
+        rw [e2]
+        have hany : (sdr.fields.any fun f => decide (f.req = Req.required ∧ sdr.kind ≠ Kind.union ∧
+            (lookupVal fs f.id).isNone = true)) = false := by
+          rw [List.any_eq_false]
+          intro f hf
+          simp only [decide_eq_true_eq, not_and]
+          intro hr hk
+          have hfw := hreqr f hf hr
+          have := hreq f hfw (by rw [hr]; intro h; cases h) hnu
+          cases hl : lookupVal fs f.id with
+          | none => rw [hl] at this; cases this
+          | some x => simp
+        rw [hany]
+        simp only [Bool.false_eq_true, if_false]
+        rw [if_neg (fun h => hnur h.1)]
+      · cases henc
+      · cases henc
+  · intro f hf
+    rw [lookup_normFields sdr fs hndr f (hsub f hf)]
+    unfold readState
+    cases hl : lookupVal fs f.id with
+    | none =>
+      have := habs f hf hl
+      rw [← hkind] at this
+      simp only [if_pos this]
+    | some x =>
+      simp only [isSetVal_kind sdw sdr hkind f x, hset f hf x hl, if_true]
+  · intro g hg hid
+    have hl := hnot g hid
+    have h1 : lookupVal (normFields sdr fs) g.id = (if g.req = .optional then none else g.dflt) := by
+      rw [lookup_normFields sdr fs hndr g hg]
+      unfold readState
+      simp only [hl, hnur, or_false]
+    refine ⟨h1, ?_⟩
+    unfold getField
+    rw [h1]
+    by_cases ho : g.req = .optional
+    · simp only [if_pos ho]
+    · simp only [if_neg ho]
+      cases g.dflt <;> rfl
+theorem All2.imp {α β : Type} {R S : α → β → Prop} (h : ∀ a b, R a b → S a b) :
+    ∀ {l : List α} {l' : List β}, All2 R l l' → All2 S l l' := by
+  intro l l' hl
+  induction hl with
+  | nil => exact .nil
+  | cons hr _ ih => exact .cons (h _ _ hr) ih
+
+/-- What the emitted `Write` of a struct-like emits: StructBegin(name), one chunk per declared field in
+declaration order (each the result of that field's `writeFieldN`), FieldStop, StructEnd. -/
+theorem encV_struct_chunks (d : Defs) (n : Nat) (t : Ty) (nm : String) (sd : StructDef)
+    (fs : List (Int × Val)) (es : List Event)
+    (hres : resolve d t = .struct nm) (hsd : lookupStruct d nm = some sd)
+    (henc : encV d (n + 1) t (.struct fs) = .ok es) :
+    ∃ cs : List (List Event), es = [.sb sd.name] ++ cs.flatten ++ [.fs, .se] ∧
+      All2 (fun f c => fieldEvents d (encV d n) sd fs f = .ok c) sd.fields cs := by
+  unfold encV at henc
+  simp only [hres, hsd] at henc
+  split at henc
+  · cases henc
+  · split at henc
+    · rename_i body hbody
+      cases henc
+      obtain ⟨cs, hall, rfl⟩ := concatRes_map_ok _ _ _ hbody
+      exact ⟨cs, rfl, hall⟩
+    · cases henc
+    · cases henc
+
+/-- A field that is not optional (and not a union's) has no default `IsSet` compares with. -/
+theorem isSetVal_of_not_optional (sd : StructDef) (f : Field) (v : Val)
+    (h : ¬ (f.req = .optional ∨ sd.kind = .union)) : isSetVal sd f v = true := by
+  unfold isSetVal cmpDflt
+  rw [if_neg h]
+
+/-- `IsSet<F>()` of a non-pointer optional field with default `dv`: the value differs from `dv`. -/
+theorem isSetVal_default (sd : StructDef) (f : Field) (v dv : Val)
+    (hopt : f.req = .optional ∨ sd.kind = .union) (hd : f.dflt = some dv) (hs : dv.scalar = true) :
+    isSetVal sd f v = true ↔ v ≠ dv := by
+  unfold isSetVal cmpDflt
+  rw [if_pos hopt, hd]
+  simp only [hs, if_true, Bool.not_eq_true', ne_eq]
+  rw [← Val.beq_iff v dv]
+  cases Val.beq v dv <;> simp
 
 end FV.Thrift
